@@ -32,7 +32,7 @@ META = {
         'geometry instances are built field-wise with their class invariant (unit axes, orthonormal init matrix) - not through __init__',
     ],
     'assumptions': ['A1', 'A7', 'shapes: scalar parameters, vectors of 2 parameters and broadcast pairs (2,1) x (1,2) (configurations; values are symbolic)'],
-    'not_decided': ['geometry constructors (__init__, frommatrix) and the factories parallel_beam_geometry / cone_beam_geometry / helical_geometry (detector coverage of the volume)',
+    'not_decided': ['geometry constructors (__init__, frommatrix) and the factories cone_beam_geometry / helical_geometry (detector coverage of the volume; parallel_beam_geometry IS under contract)',
                     'slicing a geometry by angle index', 'ASTRA vector conversions', 'check_bounds=True paths (parameter range checks)'],
 }
 
@@ -685,6 +685,110 @@ def radial2(g, v, kind):
     return dotv(v, v) - along * along
 
 
+# ---------------------------------------------------------------------------------------------------------
+# factory: parallel_beam_geometry - the detector covers the volume
+
+def unit_parallel_factory(ndim):
+    """parallel_beam_geometry(space): the detector partition handed to the geometry constructor covers the projection of EVERY point of the
+    volume for EVERY view: horizontally [-rho, rho] with |p . e| <= |p_xy| <= rho for all unit vectors e (Cauchy-Schwarz), vertically
+    [min_h, max_h]; the constructor calls are cuts (their arguments are the claim), `IntervalProd.corners` is taken by its contract"""
+    def run(ctx):
+        I = ctx.I
+
+        def path(st):
+            install(st)
+            fr = ip.Frame(st)
+            lo = [sym('lo%d' % k) for k in range(ndim)]
+            hi = [sym('hi%d' % k) for k in range(ndim)]
+            for a, b in zip(lo, hi):
+                st.assume(a < b)
+            cs = [sym('cell%d' % k) for k in range(ndim)]
+            for c in cs:
+                st.assume(c > 0)
+            calls = {'upart': [], 'geom': []}
+
+            class Dom(object):
+                def pv_getattr(self, I_, fr_, name):
+                    if name == 'corners':
+                        def corners(I2, fr2, a, k):
+                            pts = list(itertools.product(*[(lo[j], hi[j]) for j in range(ndim)]))
+                            return ONd(np.array(pts, dtype=object))
+                        return ip.Builtin('corners', corners)
+                    if name == 'min_pt':
+                        return ONd(np.array(lo, dtype=object))
+                    if name == 'max_pt':
+                        return ONd(np.array(hi, dtype=object))
+                    if name == 'mid_pt':
+                        return ONd(np.array([(a + b) / 2 for a, b in zip(lo, hi)], dtype=object))
+                    if name == 'extent':
+                        return ONd(np.array([b - a for a, b in zip(lo, hi)], dtype=object))
+                    raise Unsupported('domain.%s' % name)
+
+            class Part(object):
+                def pv_getattr(self, I_, fr_, name):
+                    if name == 'cell_sides':
+                        return ONd(np.array(cs, dtype=object))
+                    raise Unsupported('partition.%s' % name)
+
+            class Space(object):
+                def pv_getattr(self, I_, fr_, name):
+                    d = {'domain': Dom(), 'partition': Part(), 'ndim': ndim, 'shape': tuple(S(z3.Int('shape%d' % k)) for k in range(ndim))}
+                    if name in d:
+                        return d[name]
+                    raise Unsupported('space.%s' % name)
+
+            def upart(I_, fr_, min_pt=None, max_pt=None, shape=None, **kw):
+                calls['upart'].append((min_pt, max_pt, shape))
+                return ('partition', len(calls['upart']) - 1)
+            st.cuts[PAR + 'uniform_partition'] = upart
+            st.cuts['odl.discr.partition:uniform_partition'] = upart
+            for cn in ('Parallel2dGeometry', 'Parallel3dAxisGeometry'):
+                st.cuts[PAR + cn + '.__init__'] = (lambda cn: (lambda I_, fr_, self, *a, **k: calls['geom'].append((cn, a, k))))(cn)
+            try:
+                I.call(I.get_func(PAR + 'parallel_beam_geometry'), [Space()], {}, fr)
+            except ip.PyRaise as e:
+                return ('raise', e.exc)
+            return ('ok', dict(calls=calls, lo=lo, hi=hi))
+        info = {'ndim': ndim}
+        for st, (status, r) in ctx.explore(path):
+            if status == 'raise':
+                ctx.fail(st, 'no_raise', 'raises %s' % lib.exc_desc(r), info)
+                continue
+            calls, lo, hi = r['calls'], r['lo'], r['hi']
+            ok = len(calls['geom']) == 1 and len(calls['upart']) == 2 and calls['geom'][0][0] == ('Parallel2dGeometry' if ndim == 2 else 'Parallel3dAxisGeometry')
+            ctx.prove(st, 'one angle partition, one detector partition, the geometry class of the dimension', ok, info)
+            if not ok:
+                continue
+            cn, a, k = calls['geom'][0]
+            ctx.prove(st, 'the geometry is built from (angle partition, detector partition)', a[0] == ('partition', 0) and a[1] == ('partition', 1), info)
+            dmin, dmax, _ = calls['upart'][1]
+            amin, amax, _ = calls['upart'][0]
+            ctx.prove(st, 'angles cover [0, pi]', core.s_and(core.sbool(core.sc_eq(amin, 0)), core.sbool(core.sc_eq(amax, np.pi))), info)
+            dmin_h = core.S.lift(arr(dmin).reshape(-1)[0] if isinstance(dmin, (ONd, list, tuple)) else dmin)
+            dmax_h = core.S.lift(arr(dmax).reshape(-1)[0] if isinstance(dmax, (ONd, list, tuple)) else dmax)
+            # a generic point of the volume and a generic horizontal unit vector (detector axis of some view)
+            p = [sym('p%d' % j) for j in range(ndim)]
+            for j in range(ndim):
+                st.assume(p[j] >= lo[j])
+                st.assume(p[j] <= hi[j])
+            e0, e1 = sym('e0'), sym('e1')
+            st.assume(core.sc_eq(e0 * e0 + e1 * e1, 1))
+            proj = p[0] * e0 + p[1] * e1
+            pp = p[0] * p[0] + p[1] * p[1]
+            ctx.prove(st, 'detector range is symmetric: [-rho, rho]', core.sc_eq(dmin_h, -dmax_h), info)
+            ctx.prove(st, 'rho >= distance of every point of the volume from the rotation axis  (rho >= 0, rho^2 >= p_x^2 + p_y^2)',
+                      core.s_and(core.sbool(dmax_h >= 0), core.sbool(dmax_h * dmax_h >= pp)), info)
+            st.assume(proj * proj <= pp)        # Cauchy-Schwarz instance for the unit vector e
+            st.assume(dmax_h >= 0)
+            st.assume(dmax_h * dmax_h >= pp)    # (proved above)
+            ctx.prove(st, 'full horizontal coverage: the projection of every point of the volume lies in the detector range for every view',
+                      core.s_and(core.sbool(proj <= dmax_h), core.sbool(proj >= dmin_h)), info)
+            if ndim == 3:
+                dv0, dv1 = core.S.lift(arr(dmin).reshape(-1)[1]), core.S.lift(arr(dmax).reshape(-1)[1])
+                ctx.prove(st, 'full vertical coverage', core.s_and(core.sbool(p[2] >= dv0), core.sbool(p[2] <= dv1)), info)
+    return Unit('factory/parallel_beam_geometry/ndim=%d' % ndim, run, funcs=[PAR + 'parallel_beam_geometry'], config={'ndim': ndim})
+
+
 def unit_canary():
     """must fail: the transpose of a 2d rotation claimed equal to the rotation"""
     def run(ctx):
@@ -718,5 +822,7 @@ def units(tier, seed):
             if kind == 'conebeam' and ((msh, dsh) != ('scalar', 'scalar') and not (tier == 'thorough' and (msh, dsh) == ('vec2', 'vec2'))):
                 continue            # helical cone beam: heavy polynomial identities; the vectorised configuration runs in the thorough tier only
             us.append(unit_geometry(kind, msh, dsh))
+    for nd in (2, 3):
+        us.append(unit_parallel_factory(nd))
     us.append(unit_canary())
     return us
